@@ -41,6 +41,12 @@ func main() {
 	invalidPatterns(r)
 	concurrent(r)
 	pinned(r)
+	// race build (file RACE): every data race the detector saw during the workload is a violation
+	reports, blocks := core.RaceReports()
+	r.Count("race-detector-blocks", int64(blocks))
+	for _, rep := range reports {
+		r.Violation(rep.Sig, rep.Block)
+	}
 	r.Finish()
 }
 
@@ -232,6 +238,37 @@ func goFlags(mt string) string {
 
 func runeLen(s string) int { return utf8.RuneCountInString(s) }
 
+func utf16Len(s string) int {
+	n := 0
+	for _, r := range s {
+		n++
+		if r > 0xffff {
+			n++
+		}
+	}
+	return n
+}
+
+// utf16ToRune converts a 1-based UTF-16 code unit position into the 1-based character position (0 if the
+// position falls inside a surrogate pair or outside the string).
+func utf16ToRune(s string, pos16 int) int {
+	u, k := 1, 1
+	for _, r := range s {
+		if u == pos16 {
+			return k
+		}
+		u++
+		if r > 0xffff {
+			u++
+		}
+		k++
+	}
+	if u == pos16 {
+		return k
+	}
+	return 0
+}
+
 // spans returns Go's non-overlapping leftmost-first matches of re in s from character position pos (1-based)
 // as (1-based character start, matched text).
 func spans(re *regexp.Regexp, s string, pos int) (starts []int, texts []string) {
@@ -280,9 +317,15 @@ func laws() []L {
 				}
 				if like == 1 {
 					end, oke := v[3].Int()
-					if sc == "non-bmp" && (!oke || end != pos+int64(runeLen(sub)) || !v[4].IsStr(sub)) {
-						// known finding: positions are counted in UTF-16 code units
-						return "non-bmp-subject-positions-in-utf16-units"
+					if sc == "non-bmp" && oke && (end != pos+int64(runeLen(sub)) || !v[4].IsStr(sub)) {
+						// known finding: positions are counted in UTF-16 code units (a non-BMP character counts twice);
+						// matched only when the reported numbers are exactly the UTF-16 offsets of an occurrence of sub
+						if rp := utf16ToRune(s, int(pos)); rp > 0 && end == pos+int64(utf16Len(sub)) {
+							rs := []rune(s)
+							if rp-1+runeLen(sub) <= len(rs) && string(rs[rp-1:rp-1+runeLen(sub)]) == sub {
+								return "non-bmp-subject-positions-in-utf16-units"
+							}
+						}
 					}
 					if !oke || end != pos+int64(runeLen(sub)) {
 						return "return-option-1-is-not-position-plus-length"
@@ -302,6 +345,9 @@ func laws() []L {
 		}},
 		{Name: "occurrences-replace", Weight: 4, Gen: func(rnd *rand.Rand) *Inst {
 			s, sc := genSubject(rnd)
+			for sc == "non-bmp" { // positions are UTF-16 units there (known finding of law agreement)
+				s, sc = genSubject(rnd)
+			}
 			var p pat
 			for try := 0; try < 20; try++ {
 				p = genPattern(rnd, sc == "bmp-multibyte")
@@ -496,15 +542,24 @@ var regexCalls = []struct{ name, f string }{
 // panic), and the same session answers the next valid call correctly.
 func invalidPatterns(r *core.Run) {
 	n := r.N(600, 15000)
+	var engs [8]*core.Eng
+	var sess [8]*core.Sess
+	for w := range engs { // created sequentially before the workers start (see g5lib.Runner.Run)
+		engs[w] = core.NewEng("d")
+		sess[w] = engs[w].NewSess()
+	}
+	defer func() {
+		for _, e := range engs {
+			e.Close()
+		}
+	}()
 	r.Parallel("invalid", 8, func(w int) {
-		e := core.NewEng("d")
-		defer e.Close()
-		s := e.NewSess()
+		s := sess[w]
 		for i := w; i < n; i += 8 {
 			rnd := r.Rand("invalid", i)
 			bad := invalidPats[rnd.Intn(len(invalidPats))]
-			if rnd.Intn(3) == 0 {
-				bad = "ab" + bad
+			if rnd.Intn(3) == 0 && bad[0] != '*' && bad[0] != '+' {
+				bad = "ab" + bad // (a leading quantifier would become valid behind a prefix)
 			}
 			c := regexCalls[rnd.Intn(len(regexCalls))]
 			subj, _ := genSubject(rnd)
@@ -570,11 +625,15 @@ func concurrent(r *core.Run) {
 			}
 		}
 		var wg sync.WaitGroup
+		var ss [8]*core.Sess
+		for w := range ss {
+			ss[w] = e.NewSess()
+		}
 		for w := 0; w < 8; w++ {
 			wg.Add(1)
 			go func(w int) {
 				defer wg.Done()
-				s := e.NewSess()
+				s := ss[w]
 				for rep := 0; rep < 3; rep++ {
 					for k := range qs {
 						i := (k*7 + w*5 + rep) % len(qs)
@@ -601,5 +660,8 @@ func concurrent(r *core.Run) {
 	}
 }
 
+// pinned replays the witness of the known finding (findings/C33.txt).
 func pinned(r *core.Run) {
+	g5lib.Pin(r, "agreement", "non-bmp-subject-positions-in-utf16-units", "REGEXP_INSTR counts positions in UTF-16 code units: a non-BMP character before the match shifts the position by one",
+		"REGEXP_INSTR('a😀b','b')", "3", "4")
 }
